@@ -674,6 +674,10 @@ def failclosed_oracle(n_quick=120, n_thorough=2500):
         forms += [('unrecognised text after an operand', ['other_text', t]) for t in (
             'ldi a, 5!', 'ldi a, 5 @', 'ldi a, 7 ~', 'jmp $0100?', 'ldi a, (1+2)*2`', 'lda 3 \\', 'ldi a, 5 !', 'jmp 5#')]
         forms += [('unknown instruction', ['other_text', t]) for t in ('jmp($0100)', 'lda$10', "lda'a'", 'jmp-5')]
+        # two strings in one data directive are not one string that contains quotes and a comma
+        forms += [('malformed data operands', ['other_text', t]) for t in ('.byte "a", "b"', '.cstr "a" "b"', ".byte 'ab', 'c'")]
+        # a value beyond a configured bound of exactly 0 (a bound of 0 is a bound) that still fits the field
+        forms += [('range violated', st) for st in (['instr', 'bset', [num(-1)]], ['instr', 'bset', [num(-4)]])]
         # a condition the directive patterns cannot read as a whole (it used to be read from its front part, opening a block)
         forms += [('malformed condition', ['other_text', t]) for t in ('#if 1==1', '#if 2 == 2 junk(', '#if 1 !=0')]
         forms += [('value does not fit', st) for st in (['instr', 'ldi', ['a', num(256)]], ['instr', 'ldi', ['a', num(-129)]],
